@@ -277,20 +277,45 @@ func (w *World) sideOptions() []kernel.Option {
 				time.Sleep(8 * time.Second)
 				for i := 0; i < 5000; i++ {
 					synctest.Wait()
-					var next *kernel.Parked
+					var cands []*kernel.Parked
 					for _, p := range w.s.ParkedCalls() {
 						if kernel.RootOf(p.Party) == kernel.DriverName {
-							next = p
-							break
+							cands = append(cands, p)
 						}
 					}
-					if next == nil {
+					if len(cands) == 0 {
 						break
 					}
-					w.s.Release(next, kernel.Decision{Kind: "ok"})
+					// in an order drawn from the tape: the outcome must not depend on which of the proxy's goroutines
+					// (list watcher, restart, the new distributor's first root refresh) gets where first
+					w.s.Release(cands[w.s.T.Intn(len(cands))], kernel.Decision{Kind: "ok"})
 				}
 			}
-			w.llSettled = true
+			// root knowledge is renewed when a distributor is built (or once a day): only a change of the list the proxy
+			// had really consumed guarantees a rebuild, i.e. no unsettled change of the file may precede this one
+			w.llSettled, w.rootsSettled = true, !w.llDirty
+			w.llDirty = false
+		}})
+	}
+	if w.proxy != nil && w.rootFlips < 3 {
+		opts = append(opts, kernel.Option{Key: "a log changes its accepted roots", Weight: 2, Apply: func() {
+			t := w.s.T
+			l := w.logs[t.Intn(len(w.logs))]
+			r := t.Intn(len(w.roots))
+			if l.Roots[r] {
+				delete(l.Roots, r)
+			} else {
+				l.Roots[r] = true
+			}
+			w.rootFlips++
+			w.rootsSettled = false
+			for _, c := range w.calls {
+				if !c.Checked {
+					c.RootsMoved = true
+				}
+			}
+			w.s.Fault("roots.change")
+			w.s.Logf("%s now accepts roots %v", l.URL, sortedRoots(l.Roots))
 		}})
 	}
 	if w.proxy != nil {
@@ -298,6 +323,7 @@ func (w *World) sideOptions() []kernel.Option {
 			kernel.Option{Key: "log list changes", Weight: 2, Apply: func() {
 				w.llWhich = 1 - w.llWhich
 				w.llSince, w.llStolen, w.llSettled = w.s.Now(), false, false
+				w.llDirty = true
 				for _, c := range w.calls {
 					if c.Kind == "proxy" && !c.Checked {
 						c.ListMoved = true
@@ -311,7 +337,7 @@ func (w *World) sideOptions() []kernel.Option {
 			kernel.Option{Key: "llm refresh", Weight: 1, Apply: func() {
 				// a direct RefreshLogList consumes the change without notifying anybody: from here on it cannot
 				// be told which list the Proxy works from, until the file changes again
-				w.llStolen = true
+				w.llStolen, w.llDirty = true, true
 				w.startOp("llm-refresh", func(ctx context.Context) { _, _ = w.llm.RefreshLogList(ctx) })
 			}},
 			kernel.Option{Key: "llm two latest", Weight: 1, Apply: func() {
